@@ -26,8 +26,16 @@ def gen_cases(seed, tier, n):
         c["params"] = {}
         if i % 3 == 1:
             tracegen.relabel_ranks(c)      # a subset of a job: rank ids are not 0..n-1, and not listed in order
+        if i % 6 == 3:
+            # history: the trace is decoded for display (decode_symbol_ids(), shortened names) before the analysis runs; some kernels have
+            # names whose kind is decided by the part the shortening strips
+            import random as _r
+            tracegen.tricky_kernel_names(c, _r.Random(seed * 271 + i))
+            c["params"]["decoded"] = True
         if i % 8 == 6:
             fw.set_quarter_us(c)           # quarter-microsecond resolution (framework.resolution)
+        if i % 16 == 11 and not c["params"].get("quarter_us"):
+            tracegen.scale_case(c, 10 ** 8)     # a long trace: sums beyond 2**24 and 2**31 (the models are homogeneous in time)
         out.append(c)
     return out
 
@@ -41,6 +49,8 @@ def run_impl(case, d):
         frames = {r: fw.dump_frame_res(case, ta.t.get_trace(r), sym) for r in ranks}
         if any(all(row["stream"] == -1 for row in rows) for rows in frames.values()):
             return {"skip": True}
+        if case["params"].get("decoded"):
+            ta.t.decode_symbol_ids()
         try:
             df = ta.get_temporal_breakdown(visualize=False)
             out = {}
